@@ -29,7 +29,7 @@ VARIABLES l,        \* next line
 
 vars == <<l, tp, raw, eps, frames, nrcv, hist, mm, nv>>
 
-NewHist == [eof |-> FALSE, pipe |-> FALSE, err |-> 0, nok |-> 0, pc |-> ZeroCnt, refused |-> FALSE]
+NewHist == [eof |-> FALSE, pipe |-> FALSE, wref |-> FALSE, taint |-> FALSE, err |-> 0, nok |-> 0, pc |-> ZeroCnt, refused |-> FALSE]
 
 TcpBased(t) == t \in {"tcp", "tls", "btcp", "btls"}
 Other(e) == 3 - e
@@ -89,12 +89,18 @@ HistChecks(ln, e) ==
    \* C17/C03: a send refused without connection failure counts nothing
    Chk(~(isS /\ ln.ret = -1 /\ ln.err \in {EAGAIN, EMSGSIZE, EINVAL}) \/ (c[2] = h.pc[2] /\ c[6] = h.pc[6]),
        "C03.trace", h.pc, c),
+   \* C17: a successful send counts exactly what was accepted
+   Chk(~(okS /\ msgT) \/ (c[2] = h.pc[2] + ln.len /\ c[6] = h.pc[6] + 1), "C17.from_app", h.pc[2] + ln.len, c),
+   Chk(~(okS /\ Stream(tp)) \/ c[2] = h.pc[2] + ln.ret, "C17.from_app", h.pc[2] + (IF isS THEN ln.ret ELSE 0), c),
    \* C17: a receive counts what was really delivered
    Chk(~okR \/ (c[1] = h.pc[1] + ln.ret /\ (Stream(tp) \/ c[5] = h.pc[5] + 1)) \/ ("ux_full_count" \in Dev /\ Seq1(tp)),
        "C17.to_app", h.pc[1] + (IF isR THEN ln.ret ELSE 0), c),
    Chk(~(isR /\ ln.ret <= 0) \/ (c[1] = h.pc[1] /\ c[5] = h.pc[5]), "C17.to_app", h.pc, c),
    \* C01 / C02: content, order, truncation
-   Chk(~okR \/ ln.ok = 1, IF Stream(tp) THEN "C02.content" ELSE "C01.content", 1, ln.ok),
+   \* ok: 1 intact, 0 altered, 2 altered and the unexpected bytes are those of a send that was refused with
+   \* EAGAIN (history class "refused_bytes"), 3 not judged any more after a classified mismatch
+   Chk(~okR \/ ln.ok \in {1, 3}, IF Stream(tp) THEN "C02.content" ELSE "C01.content",
+       IF ln.ok = 2 THEN "refused_bytes" ELSE "intact", ln.ok),
    Chk(~okR \/ ln.ret <= ln.cap, IF Stream(tp) THEN "C02.range" ELSE "C01.trunc", ln.cap, ln.ret),
    Chk(~(okR /\ msgT /\ ln.ok = 1) \/ ln.mi = h.nok + 1, "C01.order", h.nok + 1, IF isR THEN ln.mi ELSE 0),
    Chk(~(okR /\ msgT /\ ln.ok = 1 /\ ~raw) \/ ln.ret = Min(ln.fl, ln.cap), "C01.len", 0, IF isR THEN ln.ret ELSE 0),
@@ -119,6 +125,9 @@ HistNext(ln, e) ==
         !.nok = IF ln.op = "r" /\ ln.ret > 0 THEN @ + 1 ELSE @,
         !.eof = @ \/ (ln.op = "r" /\ ln.ret = 0 /\ ln.cap > 0),
         !.refused = (ln.op = "s" /\ ln.ret = -1 /\ ln.err \in {EAGAIN, EMSGSIZE, EINVAL}),
+        \* wref: the last stream send was refused (EAGAIN); taint: a refused send was followed by different data
+        !.wref = IF ln.op = "s" THEN (ln.ret = -1 /\ ln.err = EAGAIN /\ ln.len > 0) ELSE @,
+        !.taint = @ \/ (ln.op = "s" /\ h.wref /\ ln.rty = 0),
         !.pipe = @ \/ (ln.op \in {"s", "f"} /\ ln.ret = -1 /\ ln.err = EPIPE),
         !.err = IF @ = 0 /\ ln.op \in {"s", "r", "f"} /\ ln.ret = -1 /\ ConnErr(ln.err)
                    /\ ~(ln.op \in {"s", "f"} /\ ln.err = EPIPE)
@@ -174,7 +183,8 @@ Reset(ln) ==
      IN eps' = <<NewEp(t, m), NewEp(t, m)>>
   /\ frames' = <<<<>>, <<>>>> /\ nrcv' = <<0, 0>>
   /\ hist' = <<NewHist, NewHist>>
-  /\ mm' = (ln.up = 0)
+  \* btls (OpenSSL's record layer between the API and the kernel) has no model part: history part only
+  /\ mm' = (ln.up = 0 \/ ln.tp = "btls")
   /\ nv' = nv
 
 Keep == UNCHANGED <<tp, raw>>
@@ -246,7 +256,8 @@ StepReceive(ln) ==
              \o <<Chk(res.wused = cr.wu, UTag(e), res.wused, cr.wu),
                   Chk(res.rused = cr.ru, "MM", res.rused, cr.ru),
                   \* C06: end-of-stream is reported only after every complete message that had arrived
-                  Chk(~(ln.ret = 0 /\ h \in 1..MaxMsg /\ ln.av[e] >= 0 /\ res.ep.rbuf + ln.av[e] >= HdrLen + h),
+                  \* (kernel byte counts say nothing about plaintext under TLS: model mode only)
+                  Chk(~(eps[e].l1m = "model" /\ ln.ret = 0 /\ h \in 1..MaxMsg /\ ln.av[e] >= 0 /\ res.ep.rbuf + ln.av[e] >= HdrLen + h),
                       "C06.drain", Via(e, res.ep, cr), ln.av[e])>>
              \o CntChecks(ln, e, res, FALSE))
   ELSE IF Stream(tp) THEN
@@ -256,7 +267,7 @@ StepReceive(ln) ==
                ELSE IF res.ret = 0 THEN "C06.drain" ELSE "C02.prefix"
     IN Apply(ln, e, res.ep, frames, nrcv, hcs,
              RetChecks(ln, res, tag) \o <<Chk(res.used = cr.ru, "MM", res.used, cr.ru),
-                  Chk(~(ln.ret = 0 /\ ln.av[e] > 0), "C06.drain", Via(e, res.ep, cr), ln.av[e])>>
+                  Chk(~(tp = "btcp" /\ ln.ret = 0 /\ ln.av[e] > 0), "C06.drain", Via(e, res.ep, cr), ln.av[e])>>
              \o CntChecks(ln, e, res, FALSE))
   ELSE
     LET L == IF cr.ru >= 1 THEN ln.k[5] ELSE 0
